@@ -458,6 +458,31 @@ def search_exprs(ctx: Ctx) -> SearchResult:
 						uses = ['w["k"]', '[k2 for k2 in w.keys()]', 'w.get(s)', '{k2: v2 for k2, v2 in w.items()}']
 					fns.append(f'0\n\tw = {w}\n\tu = {rng.choice(uses)}')
 					continue
+				if i == 4 and rng.random() < 0.85:
+					# one literal with spread items per program (on_spread, reflections.py:722: the items of `*e` are typed by the FIRST type
+					# argument of e's type): lists, dicts (= their keys) with different key / value types, views, ranges, nested lists, in
+					# every position of the literal, alone, doubled, indexed, and the dict form `{**d, k: v}`. A heterogeneous tuple and
+					# `d.items()` are typed by their first member (known finding spread-first-type-argument): low rate, alone.
+					if rng.random() < 0.08:
+						fns.append(rng.choice(['[*t]', '[*tt]', '[*d.items()]', '[*di.items()]']))
+						continue
+					by_el = {
+						'int': (['xs', 'di', 'di.keys()', 'd.values()', 'range(3)', 'range(a % 3 + 1)', 'reversed(xs)', 'xss[0]', '[a, c]'], ['a', 'c', '7']),
+						'str': (['d', 'dd', 'do', 'ss', 'd.keys()', 'dd.keys()', 'di.values()', '[s]', 's.split(",")'], ['s', '"w"']),
+						'float': (['ys', '[b, e]', 'reversed(ys)', '{s: b}.values()'], ['b', 'e', '0.5']),
+						'list[int]': (['xss', 'dd.values()', '[xs]', 'xss.copy()'], ['xs', '[a]']),
+					}
+					el = rng.choice(list(by_el))
+					srcs, plain = by_el[el]
+					items = ['*' + rng.choice(srcs) for _ in range(rng.randint(1, 2))] + [rng.choice(plain) for _ in range(rng.randint(0, 2))]
+					rng.shuffle(items)
+					e1 = '[' + ', '.join(items) + ']'
+					r = rng.random()
+					if r < 0.15:
+						kt, dsrc, k, v = rng.choice([('str', ['d'], 's', 'a'), ('int', ['di'], 'a', 's'), ('str', ['dd'], 's', 'xs')])
+						e1 = rng.choice(['{{**{d}, {k}: {v}}}', '{{{k}: {v}, **{d}}}', '{{**{d}}}']).format(d=rng.choice(dsrc), k=k, v=v)
+					fns.append(e1 if r < 0.6 else f'{e1}[0]' if r < 0.75 else f'[z for z in {e1}]' if r < 0.85 else f'({e1}, a)')
+					continue
 				if i == 0:
 					# one flat arithmetic chain per program (mixed operators of one precedence level, mixed int/bool/float operands)
 					fns.append(g.arith(rng.choice([X.FLOAT, X.INT]), 1).text)
